@@ -635,6 +635,12 @@ func c19Profile() *Profile {
 					op.R[0] = nActors - 1
 					op.R[2] = 8
 				}
+			case OpRegisterSpec:
+				// re-registration attempts whose query type differs from a registered one only by letter case or
+				// surrounding whitespace (variants 7-10 of OpRegisterSpec), incl. the genesis types
+				if uni(t, "respell", 3) == 0 {
+					op.V = 7 + uni(t, "spelling", 4)
+				}
 			case OpCreateReporter:
 				// commission rates above 100% are C09's subject
 				if op.V == 5 || op.V == 6 || op.V == 7 {
